@@ -71,6 +71,16 @@ def configs(tier, seed):
         out += [_cfg((4, 4, 4), [(2, 2, 2), (2, 2, 2), (1, 1, 1)], 1, "uint16", "uint16", dlay="sharded", cost=5),
                 _cfg((3, 2, 1), [(2, 2, 1)], 1, "uint64", "uint64", senc="compressed_segmentation", denc="compressed_segmentation", cost=40, wall=900),
                 _cfg((3, 3, 3), [(2, 2, 2), (4, 4, 4)], 3, "uint8", "uint16", slay="gzip", dlay="gzip")]
+        # every pair of source / destination layouts, alternating data types, channels, copy-info and the command line
+        n = 0
+        for slay in ("deep", "flat", "gzip", "flat_gzip", "sharded"):
+            for dlay in ("deep", "flat", "gzip", "sharded"):
+                n += 1
+                sd, dd = (("uint8", "uint8"), ("uint8", "uint16"), ("uint16", "uint64"), ("float32", "float32"), ("uint32", "uint32"))[n % 5]
+                both_plain = "sharded" not in (slay, dlay)
+                out.append(_cfg((3, 2, 2) if n % 2 else (2, 4, 2), [(2, 2, 2), (2, 2, 2)] if n % 3 else [(2, 2, 2)], 1 + n % 2, sd, dd, slay=slay, dlay=dlay,
+                                copy_info=(sd == dd and n % 4 == 0 and slay != "sharded" and dlay != "sharded"), via_main=(n % 6 == 0 and both_plain),
+                                remote=(n % 7 == 0 and slay in ("flat", "flat_gzip", "sharded")), cost=3))
     return out
 
 
